@@ -1198,6 +1198,11 @@ class Executor:
         if isinstance(o, Opaque):
             self.havocs_used.append(o.label + "." + meth)
             return [(s, Opaque("call"))]
+        if isinstance(o, tuple) and len(o) == 2 and o[0] == "objdict" and isinstance(o[1], Obj) and meth == "update" and len(args) == 1 and not kw \
+                and isinstance(args[0], tuple) and len(args[0]) == 2 and args[0][0] == "objdict" and isinstance(args[0][1], Obj):
+            # obj.__dict__.update(other.__dict__): every attribute of `other` is (re)bound on `obj` to the same value; attributes only `obj` has stay
+            s.attrs(o[1]).update(s.attrs(args[0][1]))
+            return [(s, None)]
         if meth == "item" and (is_z3(o) or isinstance(o, (int, float))):
             return [(s, o)]             # numpy scalar -> python scalar
         if isinstance(o, (tuple, list)) and meth == "index":
